@@ -411,6 +411,41 @@ def verifyBib (b : Bundle) (sb : SecBlock) : Verdict :=
   | .ok => verifyBibLoop P store crcFn b sb sb.targets 0 false
   | v => v
 
+/-! ## Key selection through a certificate (`_get_cose_key`, x5chain / x5t branch) -/
+
+/-- What `_get_cose_key` learns about the certificate a message refers to. -/
+structure CertInfo (Key : Type) where
+  /-- `val_func(found_chain)` did not raise (path validation, key usages) -/
+  chainValid : Bool
+  /-- `tcpcl.session.match_id(security source, end-entity cert, id-on-bundleEID)`:
+      `some true` = a NODE-ID of the certificate equals the security source, `some false` = the
+      certificate has NODE-IDs but none matches, `none` = it has no NODE-ID at all -/
+  nodeIdMatch : Option Bool
+  /-- public key of the end-entity certificate -/
+  key : Key
+
+/-- The key store seen by the verifier when key references are certificates: a key is handed out only
+    for a valid chain whose end-entity certificate *positively* names the security source. -/
+def certStore {Key : Type} (certs : Bytes → Option (CertInfo Key)) (ref : Bytes) : Option Key :=
+  match certs ref with
+  | none => none
+  | some c => if c.chainValid && c.nodeIdMatch == some true then some c.key else none
+
+/-! ## What a block puts on the wire (`CanonicalBlock.ensure_block_type_specific_data`,
+    `Bundle._update_from_admin`) -/
+
+/-- A canonical block at the source: its `btsd` field and, possibly, an attached payload object
+    (e.g. an `AdminRecord`) given by its own encoding. -/
+structure TxBlock where
+  blk : Canonical
+  attached : Option Bytes
+
+/-- The BTSD emitted: the field when it is set; the attached object is encoded only into an unset field. -/
+def TxBlock.wireBtsd (b : TxBlock) : Bytes :=
+  match b.blk.btsd with
+  | some d => d
+  | none => b.attached.getD []
+
 /-! ## A whole BCB (`CoseContext.verify_bcb`) -/
 
 /-- the target block object is shared with the container: writing its BTSD changes the bundle -/
